@@ -415,6 +415,9 @@ class Arr(object):
                 picked = [v for v, m in zip(self.items(), index.items()) if m]
                 return Arr((len(picked),), picked, kind=self.kind)
             return MaskedSel(self, index)
+        if self.ndim == 1 and isinstance(index, Arr) and any(hasattr(v, 'flat_get') for v in index.items()):
+            # data dependent positions in a 1-d array: the same as .flat[index]
+            return Arr(index.shape, [flat_get(self, v) for v in index.items()], kind=self.kind)
         pos, shape = self._resolve(index)
         if shape == () and not _has_adv_or_slice(index):
             return self.buf.data[self.pos[pos[0]]]
